@@ -160,7 +160,7 @@ def i_XORI(ins, fmap):
 def i_SLT(ins, fmap):
     dst, rs1, rs2 = ins.operands
     if dst is not zero:
-        _t = rs1 < rs2
+        _t = fmap(rs1).signed() < fmap(rs2).signed()
         fmap[dst] = fmap(tst(_t, cst(1, 64), cst(0, 64)))
 
 
@@ -176,7 +176,7 @@ def i_SLTU(ins, fmap):
 def i_SLTI(ins, fmap):
     dst, rs1, rs2 = ins.operands
     if dst is not zero:
-        _t = rs1 < rs2
+        _t = fmap(rs1).signed() < fmap(rs2).signed()
         fmap[dst] = fmap(tst(_t, cst(1, 64), cst(0, 64)))
 
 
@@ -279,7 +279,8 @@ def i_BNE(ins, fmap):
 
 def i_BLT(ins, fmap):
     r1, r2, imm = ins.operands
-    fmap[pc] = fmap(tst(r1 < r2, pc + imm, pc + ins.length))
+    _t = fmap(r1).signed() < fmap(r2).signed()
+    fmap[pc] = fmap(tst(_t, pc + imm, pc + ins.length))
 
 
 def i_BLTU(ins, fmap):
@@ -289,7 +290,8 @@ def i_BLTU(ins, fmap):
 
 def i_BGE(ins, fmap):
     r1, r2, imm = ins.operands
-    fmap[pc] = fmap(tst(r1 >= r2, pc + imm, pc + ins.length))
+    _t = fmap(r1).signed() >= fmap(r2).signed()
+    fmap[pc] = fmap(tst(_t, pc + imm, pc + ins.length))
 
 
 def i_BGEU(ins, fmap):
